@@ -916,6 +916,131 @@ func corpusErroredVsEmpty() {
 	}
 }
 
+// badArgs / goodArgs: per family, one representative of every refused argument class and of every
+// accepted Go type class (fast-path and slow-path types, scalars and slices, text).
+func badArgs(kind byte) []any {
+	big53 := int64(1)<<53 + 1
+	common := []any{"12x", "abc", otherT{1}, nil, []any{1}, struct{}{}, myInt(1), &otherT{2}}
+	switch kind {
+	case 'I':
+		return append([]any{float64(1), true, []bool{true}, []float64{1}, "", "1.5", []string{"1", "x"}, []string{"y"}}, common...)
+	case 'U':
+		return append([]any{-1, int8(-1), int64(-1), []int{1, -1}, []int8{-1}, "-1", "+1", []string{"3", "-1"}, float32(1), true}, common...)
+	case 'F':
+		return append([]any{big53, uint64(big53), []int64{1, big53}, []uint{uint(big53)}, "1e400", "", []string{"1", "x"}, true, []bool{false}}, common...)
+	case 'B':
+		return append([]any{256, -1, "256", "", int8(1), int64(1), uint16(1), []int{1}, []string{"1"}, 1.5, true}, common...)
+	default:
+		return append([]any{1, "true", []int{1}, byte(1), 1.5, []string{"true"}}, common...)
+	}
+}
+
+func goodArgs(kind byte) []any {
+	switch kind {
+	case 'I':
+		return []any{1, []int{1, 2}, int64(3), []int64{4, 5}, int8(5), []int8{6}, int16(7), []int32{1, 2}, int32(8), uint8(9), []uint8{1},
+			uint16(10), []uint16{11}, uint32(12), []uint32{13}, uint(14), []uint{15}, uint64(16), []uint64{17}, "34", []string{"1", "0x2"}, []int{}, []string{}}
+	case 'U':
+		return []any{uint(1), []uint{1, 2}, uint64(3), []uint64{4, 5}, uint8(5), []uint8{6}, uint16(7), []uint16{8}, uint32(9), []uint32{10},
+			3, []int{4}, int8(5), []int8{6}, int16(7), []int16{8}, int32(9), []int32{10}, int64(11), []int64{12}, "34", []string{"1", "0x2"}, []uint{}}
+	case 'F':
+		return []any{float32(1.5), float64(2.5), []float32{1, 2}, []float64{3, 4}, 1, []int{2}, int8(3), []int16{4}, int64(5), uint8(6), []uint32{7},
+			uint64(8), "1.5", []string{"2", "3e2"}, []float64{}}
+	case 'B':
+		return []any{byte(1), []byte{1, 2}, 7, "0x10", []byte{}}
+	default:
+		return []any{true, false, []bool{true, false}, []bool{}}
+	}
+}
+
+// corpusMixedLists: an invalid argument at EVERY position among valid arguments of every Go type
+// class. Oracle: any invalid argument anywhere => Error() != nil, never Equal to the item of the
+// remaining arguments, refused by NewDataMessage.
+func corpusMixedLists() {
+	r := c.Rng
+	check := func(kind byte, w int, args []any, pos int) {
+		e := numExpr(kind, w, args...)
+		it, ok := emitConstruct(e)
+		if !ok {
+			return
+		}
+		line := "C " + e.syntax()
+		rest := append(append([]any(nil), args[:pos]...), args[pos+1:]...)
+		er := numExpr(kind, w, rest...)
+		rr := er.build()
+		if it.Error() == nil {
+			c.Fail(fmt.Sprintf("an invalid argument at position %d of %d was forgotten: the item is error-free", pos, len(args)), line)
+			if !rr.panicked && secs2.Equal(it, rr.item) {
+				c.Fail("an item built from a list with an invalid argument is Equal to the item of the remaining arguments", line)
+			}
+		}
+		if m, err := hsms.NewDataMessage(1, 1, false, 0, [4]byte{}, it); err == nil && m != nil {
+			c.Fail("NewDataMessage accepted an item built from a list with an invalid argument", line)
+		}
+		if !rr.panicked {
+			emitEqual(e, er, it, rr.item)
+		}
+		if pos == 0 || r.Intn(4) == 0 {
+			emitGate(e, it)
+		}
+		c.Count(fmt.Sprintf("mixed-lists/%c/pos=%d/%d", kind, pos, len(args)))
+	}
+	for _, kind := range []byte{'I', 'U', 'F', 'B', 'O'} {
+		ws := []int{0}
+		switch kind {
+		case 'I', 'U':
+			ws = []int{1, 2, 4, 8}
+		case 'F':
+			ws = []int{4, 8}
+		}
+		bad, good := badArgs(kind), goodArgs(kind)
+		for bi, b := range bad {
+			for gi, g := range good {
+				w := ws[(bi+gi)%len(ws)]
+				check(kind, w, []any{b, g}, 0) // invalid first, every valid type class behind it
+				check(kind, w, []any{g, b}, 1) // invalid last
+				g2 := good[r.Intn(len(good))]
+				g3 := good[r.Intn(len(good))]
+				switch (bi + gi) % 3 {
+				case 0:
+					check(kind, w, []any{b, g, g2}, 0)
+				case 1:
+					check(kind, w, []any{g2, b, g}, 1)
+				default:
+					check(kind, w, []any{g2, g, b}, 2)
+				}
+				if gi%5 == 0 {
+					check(kind, w, []any{g3, g2, b, g, g3}, 2)
+					b2 := bad[r.Intn(len(bad))]
+					check(kind, w, []any{b, g, b2, g2}, 0)
+				}
+			}
+		}
+	}
+	// an errored child at every position among valid children, one and two levels down
+	okKids := []*expr{{kind: 'A', str: "a"}, numExpr('U', 1, 7), {kind: 'L'}, {kind: 'B', args: []any{byte(1)}}}
+	for _, kind := range []byte{'I', 'U', 'F', 'B', 'O'} {
+		w := 4
+		for _, b := range badArgs(kind) {
+			bad := numExpr(kind, w, b)
+			for pos := 0; pos < 3; pos++ {
+				kids := []*expr{okKids[r.Intn(len(okKids))], okKids[r.Intn(len(okKids))], okKids[r.Intn(len(okKids))]}
+				kids[pos] = bad
+				for _, e := range []*expr{{kind: 'L', kids: kids}, {kind: 'L', kids: []*expr{okKids[0], {kind: 'L', kids: kids}}}} {
+					it, ok := emitConstruct(e)
+					if ok && it.Error() == nil {
+						c.Fail(fmt.Sprintf("a list with an errored child at position %d is error-free", pos), "C "+e.syntax())
+					}
+					if ok {
+						emitGate(e, it)
+					}
+				}
+			}
+		}
+		c.Count("mixed-lists/children")
+	}
+}
+
 func corpusOthers() {
 	for _, kind := range []byte{'I', 'U', 'F', 'B', 'O'} {
 		for _, a := range otherArgs {
@@ -1291,6 +1416,7 @@ func main() {
 	corpusOthers()
 	corpusNarrow()
 	corpusErroredVsEmpty()
+	corpusMixedLists()
 	corpusSizeLimit()
 	corpusSML()
 	if *big31 {
